@@ -42,6 +42,31 @@ def slices (bs : Bytes) : Nat → List Nat → List Bytes
   | _, [] => []
   | off, s :: ss => (bs.drop off).take s :: slices bs (off + s) ss
 
+/-- `opus_repacketizer_cat_impl` after the TOC check (repacketizer.c:77-101); `rp1` already holds
+    the `toc` / `framesize` stored by a first `cat`. -/
+def catBody (rp1 : Rp) (bs : Bytes) (sd : Bool) : Rp × Res Unit :=
+  match getNbFrames bs with
+  | .ok curr =>
+    if curr < 1 then (rp1, .err .invalidPacket)
+    else if (curr + rp1.nbFrames) * rp1.framesize > 960 then (rp1, .err .invalidPacket)
+    else
+      match parseImpl sd bs with
+      | .ok r =>
+        if r.count < 1 then (rp1, .err .invalidPacket)                 -- if(ret<1) return ret
+        else if 48 < rp1.nbFrames + r.count ∨ 48 < rp1.nbFrames + curr then (rp1, .oob)
+        else if curr ≠ r.count then (rp1, .oob)                        -- model gap guard, see `cat_no_fault`
+        else
+          let fr := slices bs r.payloadOffset r.sizes
+          let pad := (bs.drop r.padOffset).take r.padLen
+          ({ rp1 with frames := rp1.frames ++ fr,
+                      pads := rp1.pads ++ (pad, r.count) :: List.replicate (curr - 1) ([], 0) }, .ok ())
+      | .err e => (rp1, .err e)
+      | .oob => (rp1, .oob)
+      | .abort => (rp1, .abort)
+  | .err _ => (rp1, .err .invalidPacket)                               -- curr_nb_frames<1
+  | .oob => (rp1, .oob)
+  | .abort => (rp1, .abort)
+
 /-- `opus_repacketizer_cat_impl` (repacketizer.c:62-102) with `len = bs.length`.
     Returns the new state and the return code. -/
 def catImpl (rp : Rp) (bs : Bytes) (sd : Bool) : Rp × Res Unit :=
@@ -50,28 +75,7 @@ def catImpl (rp : Rp) (bs : Bytes) (sd : Bool) : Rp × Res Unit :=
   | b0 :: _ =>
     if rp.nbFrames ≠ 0 ∧ rp.toc / 4 ≠ b0 / 4 then (rp, .err .invalidPacket)
     else
-      let rp1 := if rp.nbFrames = 0 then { rp with toc := b0, framesize := samplesPerFrame b0 8000 } else rp
-      match getNbFrames bs with
-      | .ok curr =>
-        if curr < 1 then (rp1, .err .invalidPacket)
-        else if (curr + rp1.nbFrames) * rp1.framesize > 960 then (rp1, .err .invalidPacket)
-        else
-          match parseImpl sd bs with
-          | .ok r =>
-            if r.count < 1 then (rp1, .err .invalidPacket)                 -- if(ret<1) return ret
-            else if 48 < rp1.nbFrames + r.count ∨ 48 < rp1.nbFrames + curr then (rp1, .oob)
-            else if curr ≠ r.count then (rp1, .oob)                        -- model gap guard, see `cat_curr_eq_count`
-            else
-              let fr := slices bs r.payloadOffset r.sizes
-              let pad := (bs.drop r.padOffset).take r.padLen
-              ({ rp1 with frames := rp1.frames ++ fr,
-                          pads := rp1.pads ++ (pad, r.count) :: List.replicate (curr - 1) ([], 0) }, .ok ())
-          | .err e => (rp1, .err e)
-          | .oob => (rp1, .oob)
-          | .abort => (rp1, .abort)
-      | .err _ => (rp1, .err .invalidPacket)                               -- curr_nb_frames<1
-      | .oob => (rp1, .oob)
-      | .abort => (rp1, .abort)
+      catBody (if rp.nbFrames = 0 then { rp with toc := b0, framesize := samplesPerFrame b0 8000 } else rp) bs sd
 
 /-- `opus_repacketizer_cat` (repacketizer.c:104-107). -/
 def cat (rp : Rp) (bs : Bytes) : Rp × Res Unit := catImpl rp bs false
@@ -92,7 +96,7 @@ def totalExtCount : List (Bytes × Nat) → Nat → Nat → Nat → Res Nat
       | .oob => .oob
       | .abort => .abort
 
-/-- Renumbering of one packet's extensions (repacketizer.c:176-187): keep those of frames in
+/-- Renumbering of one packet's extensions (repacketizer.c:177-188): keep those of frames in
     `[begin,end)`, as frame `i + frame - begin`. -/
 def renumber (p : Bytes) (refs : List ExtRef) (i begin_ end_ : Nat) : List Ext :=
   (refs.filter fun r => begin_ ≤ r.frame + i ∧ r.frame + i < end_).map
@@ -100,7 +104,7 @@ def renumber (p : Bytes) (refs : List ExtRef) (i begin_ end_ : Nat) : List Ext :
 
 /-- "incorporate any extensions from the repacketizer padding" (repacketizer.c:162-189):
     `all` = `all_extensions[0..ext_count)`.  Padding that does not parse as an extension list
-    carries no extensions (:170-174). -/
+    carries no extensions (:172-176). -/
 def collectExts : List (Bytes × Nat) → Nat → Nat → Nat → Nat → Array Ext → Res (Array Ext)
   | [], _, _, _, _, all => .ok all
   | (p, nf) :: rest, i, begin_, end_, total, all =>
@@ -112,11 +116,11 @@ def collectExts : List (Bytes × Nat) → Nat → Nat → Nat → Nat → Array 
       | .oob => .oob
       | .abort => .abort
 
-/-- Bytes needed by the self-delimited extra length (repacketizer.c:138-141, 222-225). -/
+/-- Bytes needed by the self-delimited extra length (repacketizer.c:138-141, 234-237). -/
 def sdSize (sd : Bool) (lastLen : Nat) : Int :=
   if sd then 1 + (if 252 ≤ lastLen then 1 else 0) else 0
 
-/-- First pass: codes 0/1/2 (repacketizer.c:180-213).  Returns `tot_size` and the header
+/-- First pass: codes 0/1/2 (repacketizer.c:191-225).  Returns `tot_size` and the header
     written so far; `BUFFER_TOO_SMALL` exits are taken here exactly as in C. -/
 def firstPass (toc : Nat) (lens : List Nat) (tot0 : Int) (maxlen : Int) : Res (Int × Bytes) :=
   match lens with
@@ -144,94 +148,115 @@ def vbrSizeBytes : List Nat → Bytes
   | [_] => []
   | l :: ls => encodeSize l ++ vbrSizeBytes ls
 
-/-- `opus_repacketizer_out_range_impl` (repacketizer.c:114-323): the bytes `data[0..ret)`. -/
+/-- "figure out total number of extensions" + "incorporate any extensions from the repacketizer
+    padding" (repacketizer.c:143-189): `all_extensions[0..ext_count)`. -/
+def gatherExts (pads : List (Bytes × Nat)) (b e : Nat) (exts : Array Ext) : Res (Array Ext) :=
+  match totalExtCount pads 0 b exts.size with
+  | .ok total => collectExts pads 0 b e total exts
+  | .err er => .err er
+  | .oob => .oob
+  | .abort => .abort
+
+/-- `vbr` of the code-3 branch (repacketizer.c:238-246). -/
+def isVbr (lens : List Nat) : Bool := lens.any (· ≠ lens.headD 0)
+
+/-- `tot_size` of the code-3 branch before padding (repacketizer.c:234-270). -/
+def tot3 (lens : List Nat) (tot0 : Int) : Int :=
+  if isVbr lens then tot0 + 2 + vbrBody lens else tot0 + lens.length * lens.headD 0 + 2
+
+/-- Code 3 (repacketizer.c:226-305 and the tail :306-334 on that path).  `sdBytes` = the
+    self-delimited length, `all` = `all_extensions[0..ext_count)`. -/
+def code3 (toc : Nat) (frames : List Bytes) (tot0 maxlen : Int) (sdBytes : Bytes) (pad : Bool)
+    (all : Array Ext) : Res Bytes :=
+  let lens := frames.map List.length
+  let count := frames.length
+  let body := frames.flatten
+  let extCount := all.size
+  let vbr := isVbr lens
+  let tot2 : Int := tot3 lens tot0
+  if tot2 > maxlen then .err .bufferTooSmall
+  else
+    let padAmount0 : Int := if pad then maxlen - tot2 else 0
+    match (if 0 < extCount then
+             (match generateDry (maxlen - tot2) all count false with
+              | .ok n => Res.ok ((n : Int), if pad then padAmount0 else (n : Int) + n / 254 + 1)
+              | .err e => .err e
+              | .oob => .oob
+              | .abort => .abort)
+           else .ok (0, padAmount0)) with
+    | .ok (extLen, padAmount) =>
+      let cbyte := count + (if vbr then 128 else 0)
+      let sizes := if vbr then vbrSizeBytes lens else []
+      if padAmount ≠ 0 then
+        let nb255 := (padAmount - 1) / 255
+        if tot2 + extLen + nb255 + 1 > maxlen then .err .bufferTooSmall
+        else
+          let hdr := [toc / 4 * 4 + 3, cbyte + 64] ++ List.replicate nb255.toNat 255 ++
+                     [(padAmount - 255 * nb255 - 1).toNat] ++ sizes ++ sdBytes ++ body
+          let onesBegin := tot2 + nb255 + 1
+          let extBegin := tot2 + padAmount - extLen
+          if extBegin < onesBegin then .abort                     -- layout guard: ext_begin ≥ ones_begin (unreachable without extensions: `outRangeImpl_noext`)
+          else if pad ∧ extCount = 0 then
+            .ok (hdr ++ List.replicate (maxlen - onesBegin).toNat 0)
+          else
+            match (if 0 < extLen then
+                     (match generate false extLen all count false with
+                      | .ok g => if (g.size : Int) = extLen then Res.ok g.toList else .abort   -- celt_assert :323
+                      | .err _ => .abort
+                      | .oob => .oob
+                      | .abort => .abort)
+                   else .ok []) with
+            | .ok g => .ok (hdr ++ List.replicate (extBegin - onesBegin).toNat 1 ++ g)
+            | .err e => .err e
+            | .oob => .oob
+            | .abort => .abort
+      else if 0 < extLen then .abort                              -- layout guard (ext_begin = 0), unreachable
+      else .ok ([toc / 4 * 4 + 3, cbyte] ++ sizes ++ sdBytes ++ body)
+    | .err e => .err e
+    | .oob => .oob
+    | .abort => .abort
+
+/-- Everything of `opus_repacketizer_out_range_impl` after the extension gathering
+    (repacketizer.c:191-334) for the selected `frames` (`count = frames.length ≥ 1`). -/
+def emit (toc : Nat) (frames : List Bytes) (maxlen : Int) (sd pad : Bool) (all : Array Ext) : Res Bytes :=
+  let lens := frames.map List.length
+  let lastLen := lens.getLastD 0
+  let tot0 := sdSize sd lastLen
+  let sdBytes := if sd then encodeSize lastLen else []
+  match firstPass toc lens tot0 maxlen with
+  | .ok (tot1, hdr1) =>
+    if 2 < frames.length ∨ (pad ∧ tot1 < maxlen) ∨ 0 < all.size then
+      code3 toc frames tot0 maxlen sdBytes pad all
+    else .ok (hdr1 ++ sdBytes ++ frames.flatten)
+  | .err e => .err e
+  | .oob => .oob
+  | .abort => .abort
+
+/-- The frames `frames[begin..end)` selected by a valid range. -/
+def selFrames (rp : Rp) (b e : Nat) : List Bytes := (rp.frames.drop b).take (e - b)
+
+/-- `opus_repacketizer_out_range_impl` (repacketizer.c:114-335): the bytes `data[0..ret)`. -/
 def outRangeImpl (rp : Rp) (begin_ end_ : Int) (maxlen : Int) (sd pad : Bool) (exts : Array Ext) :
     Res Bytes :=
   if begin_ < 0 ∨ begin_ ≥ end_ ∨ end_ > rp.nbFrames then .err .badArg
   else
     let b := begin_.toNat
-    let count := end_.toNat - b
-    let frames := (rp.frames.drop b).take count
     let e := end_.toNat
-    let pads := rp.pads.take e
-    let lens := frames.map List.length
-    let len0 := lens.headD 0
-    let lastLen := lens.getLastD 0
-    let tot0 := sdSize sd lastLen
-    match totalExtCount pads 0 b exts.size with
-    | .ok total =>
-      match collectExts pads 0 b e total exts with
-      | .ok all =>
-        let extCount := all.size
-        match firstPass rp.toc lens tot0 maxlen with
-        | .ok (tot1, hdr1) =>
-          let sdBytes := if sd then encodeSize lastLen else []
-          let body := frames.flatten
-          if 2 < count ∨ (pad ∧ tot1 < maxlen) ∨ 0 < extCount then
-            -- Code 3 (repacketizer.c:214-293)
-            let vbr := lens.any (· ≠ len0)
-            let tot2 : Int := if vbr then tot0 + 2 + vbrBody lens else tot0 + count * len0 + 2
-            if tot2 > maxlen then .err .bufferTooSmall
-            else
-              let padAmount0 : Int := if pad then maxlen - tot2 else 0
-              match (if 0 < extCount then
-                       (match generateDry (maxlen - tot2) all count false with
-                        | .ok n => Res.ok ((n : Int), if pad then padAmount0 else (n : Int) + n / 254 + 1)
-                        | .err e => .err e
-                        | .oob => .oob
-                        | .abort => .abort)
-                     else .ok (0, padAmount0)) with
-              | .ok (extLen, padAmount) =>
-                let cbyte := count + (if vbr then 128 else 0)
-                let sizes := if vbr then vbrSizeBytes lens else []
-                if padAmount ≠ 0 then
-                  let nb255 := (padAmount - 1) / 255
-                  if tot2 + extLen + nb255 + 1 > maxlen then .err .bufferTooSmall
-                  else
-                    let hdr := [rp.toc / 4 * 4 + 3, cbyte + 64] ++ List.replicate nb255.toNat 255 ++
-                               [(padAmount - 255 * nb255 - 1).toNat] ++ sizes ++ sdBytes ++ body
-                    let onesBegin := tot2 + nb255 + 1
-                    let extBegin := tot2 + padAmount - extLen
-                    if extBegin < onesBegin then .abort                     -- layout guard, see `out_layout_ok`
-                    else if pad ∧ extCount = 0 then
-                      .ok (hdr ++ List.replicate (maxlen - onesBegin).toNat 0)
-                    else
-                      match (if 0 < extLen then
-                               (match generate false extLen all count false with
-                                | .ok g => if (g.size : Int) = extLen then Res.ok g.toList else .abort   -- celt_assert :311
-                                | .err _ => .abort
-                                | .oob => .oob
-                                | .abort => .abort)
-                             else .ok []) with
-                      | .ok g => .ok (hdr ++ List.replicate (extBegin - onesBegin).toNat 1 ++ g)
-                      | .err e => .err e
-                      | .oob => .oob
-                      | .abort => .abort
-                else if 0 < extLen then .abort                              -- layout guard (ext_begin = 0), unreachable
-                else .ok ([rp.toc / 4 * 4 + 3, cbyte] ++ sizes ++ sdBytes ++ body)
-              | .err e => .err e
-              | .oob => .oob
-              | .abort => .abort
-          else .ok (hdr1 ++ sdBytes ++ body)
-        | .err e => .err e
-        | .oob => .oob
-        | .abort => .abort
-      | .err e => .err e
-      | .oob => .oob
-      | .abort => .abort
-    | .err e => .err e
+    match gatherExts (rp.pads.take e) b e exts with
+    | .ok all => emit rp.toc (selFrames rp b e) maxlen sd pad all
+    | .err er => .err er
     | .oob => .oob
     | .abort => .abort
 
-/-- `opus_repacketizer_out_range` (repacketizer.c:325-328). -/
+/-- `opus_repacketizer_out_range` (repacketizer.c:337-340). -/
 def outRange (rp : Rp) (begin_ end_ : Int) (maxlen : Int) : Res Bytes :=
   outRangeImpl rp begin_ end_ maxlen false false #[]
 
-/-- `opus_repacketizer_out` (repacketizer.c:330-333). -/
+/-- `opus_repacketizer_out` (repacketizer.c:342-345). -/
 def out (rp : Rp) (maxlen : Int) : Res Bytes :=
   outRangeImpl rp 0 rp.nbFrames maxlen false false #[]
 
-/-- `opus_packet_pad_impl` (repacketizer.c:335-357) with `len = bs.length`: the new packet
+/-- `opus_packet_pad_impl` (repacketizer.c:347-369) with `len = bs.length`: the new packet
     (`bs` itself when `len == new_len`, where C returns 0). -/
 def padImpl (bs : Bytes) (newLen : Int) (pad : Bool) (exts : Array Ext) : Res Bytes :=
   if bs.length < 1 then .err .badArg
@@ -244,10 +269,10 @@ def padImpl (bs : Bytes) (newLen : Int) (pad : Bool) (exts : Array Ext) : Res By
     | (_, .oob) => .oob
     | (_, .abort) => .abort
 
-/-- `opus_packet_pad` (repacketizer.c:359-369): `OPUS_OK` with the padded packet. -/
+/-- `opus_packet_pad` (repacketizer.c:371-381): `OPUS_OK` with the padded packet. -/
 def packetPad (bs : Bytes) (newLen : Int) : Res Bytes := padImpl bs newLen true #[]
 
-/-- `opus_packet_unpad` (repacketizer.c:371-390): the new packet, `ret` = its length. -/
+/-- `opus_packet_unpad` (repacketizer.c:383-402): the new packet, `ret` = its length. -/
 def packetUnpad (bs : Bytes) : Res Bytes :=
   if bs.length < 1 then .err .badArg
   else
@@ -255,7 +280,7 @@ def packetUnpad (bs : Bytes) : Res Bytes :=
     | (rp, .ok ()) =>
       let rp' := { rp with pads := rp.pads.map fun _ => ([], 0) }
       match outRangeImpl rp' 0 rp'.nbFrames bs.length false false #[] with
-      | .ok o => if 0 < o.length ∧ o.length ≤ bs.length then .ok o else .abort   -- celt_assert :388
+      | .ok o => if 0 < o.length ∧ o.length ≤ bs.length then .ok o else .abort   -- celt_assert :400
       | .err _ => .abort
       | .oob => .oob
       | .abort => .abort
@@ -263,7 +288,7 @@ def packetUnpad (bs : Bytes) : Res Bytes :=
     | (_, .oob) => .oob
     | (_, .abort) => .abort
 
-/-- "Seek to last stream" (repacketizer.c:409-419): offset of the last stream. -/
+/-- "Seek to last stream" (repacketizer.c:420-431): offset of the last stream. -/
 def seekLast : Nat → Bytes → Nat → Res Nat
   | 0, _, off => .ok off
   | n + 1, bs, off =>
@@ -275,7 +300,7 @@ def seekLast : Nat → Bytes → Nat → Res Nat
       | .oob => .oob
       | .abort => .abort
 
-/-- `opus_multistream_packet_pad` (repacketizer.c:392-421). -/
+/-- `opus_multistream_packet_pad` (repacketizer.c:404-433). -/
 def msPad (bs : Bytes) (newLen : Int) (nbStreams : Int) : Res Bytes :=
   if bs.length < 1 then .err .badArg
   else if (bs.length : Int) = newLen then .ok bs
@@ -295,7 +320,7 @@ def msPad (bs : Bytes) (newLen : Int) (nbStreams : Int) : Res Bytes :=
     | .oob => .oob
     | .abort => .abort
 
-/-- The stream loop of `opus_multistream_packet_unpad` (repacketizer.c:438-466);
+/-- The stream loop of `opus_multistream_packet_unpad` (repacketizer.c:450-478);
     `s` streams remain, `acc` = bytes emitted so far. -/
 def msUnpadLoop : Nat → Bytes → Bytes → Res Bytes
   | 0, _, acc => .ok acc
@@ -322,7 +347,7 @@ def msUnpadLoop : Nat → Bytes → Bytes → Res Bytes
       | .oob => .oob
       | .abort => .abort
 
-/-- `opus_multistream_packet_unpad` (repacketizer.c:423-468): the new packet. -/
+/-- `opus_multistream_packet_unpad` (repacketizer.c:435-480): the new packet. -/
 def msUnpad (bs : Bytes) (nbStreams : Int) : Res Bytes :=
   if bs.length < 1 then .err .badArg
   else msUnpadLoop nbStreams.toNat bs []
